@@ -131,12 +131,13 @@ PROPS = {
         ],
     },
     "C08": {
-        "lean_modules": ["TableauVerif.Props.C08", "TableauVerif.Props.C01Grid"],
+        "lean_modules": ["TableauVerif.Props.C08", "TableauVerif.Props.C01Grid", "TableauVerif.Props.C01Csv"],
         "oracles": ["c08.twin", "c08.known", "imp.grid"],
         "streams": [
             ("e2e.C08.twins", 240, 12000, 8),
             ("corr.protogen.parseHeader", 3000, 100000),
             ("corr.importer.grid", 3000, 100000),
+            ("corr.importer.csvText", 4000, 200000),
         ],
         "assumptions": [
             "the XLSX and CSV readers (excelize, encoding/csv) are trusted libraries; what they hand over differs by trailing blank cells/rows and by the text of number-typed cells, which is what the theorems are about",
@@ -180,10 +181,11 @@ PROPS = {
         "streams": [
             ("e2e.C06.formats", 3000, 100000),
             ("corr.xproto.squeeze", 70000, 600000),
+            ("corr.store.emitTimestamp", 10000, 300000),
         ],
         "assumptions": [
             "codecs are trusted parameters validated by the stream, not proved: protojson / prototext / wire marshal+unmarshal of protobuf-go, sonic's JSON AST, txtpbfmt, json.Compact/Indent",
-            "modelled and proved: tableau's own transformation on the text path (SqueezeText); the JSON timestamp rewrite (emitTimezones) is exercised by the stream over four locations and sub-second timestamps but not modelled",
+            "modelled and proved: tableau's own transformation on the text path (SqueezeText); the JSON timestamp rewrite (emitTimezones): the string written for one Timestamp is modelled (Model.Rfc3339, corr.store.emitTimestamp); the walk over the message tree is exercised by e2e.C06.formats (message and JSON walked side by side: every Timestamp at any depth must be the same instant with the location's offset), not modelled",
             "timestamps are generated inside 1950-2033: year 0001/9999 edges overflow RFC 3339 when shifted into a zone and local-mean-time eras have second-resolution offsets RFC 3339 cannot print — outside the statement",
         ],
     },
@@ -230,12 +232,13 @@ PROPS = {
         ],
     },
     "C01": {
-        "lean_modules": ["TableauVerif.Props.C01", "TableauVerif.Props.C01List", "TableauVerif.Props.C01Sheet", "TableauVerif.Props.C01Grid"],
+        "lean_modules": ["TableauVerif.Props.C01", "TableauVerif.Props.C01List", "TableauVerif.Props.C01Sheet", "TableauVerif.Props.C01Grid", "TableauVerif.Props.C01Csv"],
         "oracles": ["c01.rt", "imp.grid"],
         "streams": [
             ("e2e.C01.roundtrip", 8000, 300000),
             ("corr.confgen.tableParse", 6000, 200000),
             ("corr.importer.grid", 3000, 100000),
+            ("corr.importer.csvText", 8000, 400000),
         ],
         "assumptions": [
             "the specification of 'what a sheet states' is the Lean writer Spec.C01.write (type-DSL layout rules); generated (schema, message) cases are written by it and converted by the REAL table parser (in-memory rows through the verif hook)",
@@ -282,12 +285,13 @@ PROPS = {
         ],
     },
     "C20": {
-        "lean_modules": ["TableauVerif.Props.C20", "TableauVerif.Props.C20Civil", "TableauVerif.Props.C20Dur"],
+        "lean_modules": ["TableauVerif.Props.C20", "TableauVerif.Props.C20Civil", "TableauVerif.Props.C20Dur", "TableauVerif.Props.C20Days"],
         "oracles": ["c20.ts", "c20.gen", "c20.dur", "c20.emitz"],
         "streams": [
             ("corr.xproto.parseTime", 20000, 600000),
             ("corr.xproto.duration", 20000, 400000),
             ("e2e.C20.location", 300, 12000),
+            ("corr.store.emitTimestamp", 20000, 600000),
         ],
         "assumptions": [
             "e2e.C20.location runs the real GenProto + GenConf with LocationName \"\" / \"Local\" / a zone name while the worker's machine zone (time.Local) is set to UTC, Kolkata, New_York or Lord_Howe; the reading of the option (\"\" = UTC, Local = machine zone) is the generator's, taken from the property text",
